@@ -28,12 +28,12 @@ type Shard struct {
 }
 
 type Violation struct {
-	FP    string      `json:"fp"`    // fingerprint: call site + failing input or narrow class
-	Msg   string      `json:"msg"`   // what failed, observed vs expected
-	Input interface{} `json:"input"` // minimal input / op list / schedule
-	GoTest string     `json:"go_test,omitempty"`
-	Count int64       `json:"count"` // occurrences with this fingerprint
-	Year  int         `json:"year,omitempty"`
+	FP     string      `json:"fp"`    // fingerprint: call site + failing input or narrow class
+	Msg    string      `json:"msg"`   // what failed, observed vs expected
+	Input  interface{} `json:"input"` // minimal input / op list / schedule
+	GoTest string      `json:"go_test,omitempty"`
+	Count  int64       `json:"count"` // occurrences with this fingerprint
+	Year   int         `json:"year,omitempty"`
 }
 
 // FDEntry: functional-dependence witness (key -> value hash).
@@ -43,24 +43,24 @@ type FDEntry struct {
 }
 
 type Result struct {
-	States      int64                          `json:"states"`
-	Transitions int64                          `json:"transitions"`
-	Traces      int64                          `json:"traces"`
-	Evals       int64                          `json:"evals"`
-	Nontrivial  int64                          `json:"nontrivial"`
-	Counters    map[string]int64               `json:"counters,omitempty"`
-	Distinct    map[string]map[string]bool     `json:"distinct,omitempty"` // named sets merged by union
-	Samples     []interface{}                  `json:"samples,omitempty"`
-	Violations  map[string]*Violation          `json:"violations,omitempty"`
-	FD          map[string]map[string]*FDEntry `json:"fd,omitempty"`
-	Undecided   int64                          `json:"undecided"`
-	Notes       []string                       `json:"notes,omitempty"`
-	Inexhaustive string                        `json:"inexhaustive,omitempty"`
+	States       int64                          `json:"states"`
+	Transitions  int64                          `json:"transitions"`
+	Traces       int64                          `json:"traces"`
+	Evals        int64                          `json:"evals"`
+	Nontrivial   int64                          `json:"nontrivial"`
+	Counters     map[string]int64               `json:"counters,omitempty"`
+	Distinct     map[string]map[string]bool     `json:"distinct,omitempty"` // named sets merged by union
+	Samples      []interface{}                  `json:"samples,omitempty"`
+	Violations   map[string]*Violation          `json:"violations,omitempty"`
+	FD           map[string]map[string]*FDEntry `json:"fd,omitempty"`
+	Undecided    int64                          `json:"undecided"`
+	Notes        []string                       `json:"notes,omitempty"`
+	Inexhaustive string                         `json:"inexhaustive,omitempty"`
 }
 
 type W struct {
-	Shard Shard
-	R     Result
+	Shard     Shard
+	R         Result
 	fdViolCap int
 }
 
@@ -128,13 +128,13 @@ func (w *W) FDCheck(table, key, val, witness string) {
 // ---------------------------------------------------------------------------------------------
 
 type Check struct {
-	ID      string
-	Rule    string                                   // how cases are enumerated / what is non-trivial
-	Assume  []string                                 // trusted base
-	Shards  func(tier string, seed int64) []Shard    // work decomposition
-	Run     func(w *W)                               // worker body
-	Post    func(m *Result, tier string)             // optional parent-side global check after merge
-	Bounds  func(tier string) map[string]interface{} // reported bounds
+	ID            string
+	Rule          string                                   // how cases are enumerated / what is non-trivial
+	Assume        []string                                 // trusted base
+	Shards        func(tier string, seed int64) []Shard    // work decomposition
+	Run           func(w *W)                               // worker body
+	Post          func(m *Result, tier string)             // optional parent-side global check after merge
+	Bounds        func(tier string) map[string]interface{} // reported bounds
 	MinNontrivial int64
 }
 
